@@ -17,8 +17,8 @@ def job(mode, timeout=900, **kw):
 
 PLANS = {
     "C01": {
-        "quick": [sess("tree", "C01", 400, 30), sess("mixed", "C01", 200, 15), sess("rootfill", "C01", 200, 12), sess("dirfill", "C01", 100, 12)],
-        "thorough": [sess("tree", "C01", 6000, 420), sess("mixed", "C01", 3000, 240), sess("rootfill", "C01", 3000, 120), sess("dirfill", "C01", 2000, 120), sess("tree", "C01", 800, 90, variant="nouni")],
+        "quick": [sess("tree", "C01", 400, 25), sess("mixed", "C01", 200, 12), sess("rootfill", "C01", 200, 10), sess("dirfill", "C01", 100, 10), job("c01enum")],
+        "thorough": [sess("tree", "C01", 6000, 420), sess("mixed", "C01", 3000, 240), sess("rootfill", "C01", 3000, 120), sess("dirfill", "C01", 2000, 120), sess("tree", "C01", 800, 90, variant="nouni"), job("c01enum", timeout=3600), sess("tree", "C01", 2000, 120, args={"builder": 1})],
         "floor": 2000,
     },
     "C02": {
